@@ -100,12 +100,21 @@ structure Cfg where
       holds, the copy is wasted": wrong, because `return $this->p` hands back the very
       pointer the property holds (`C06_call_result_copy_needed`). -/
   copyCallResult : Bool
+  /-- `CloneArrayValue` / `CloneObjectValue` copy array-valued elements recursively, so no
+      array object is ever reachable from two places; and `writeBackArrayProperty` does not
+      re-store (re-copy) an array into the property that already holds it. Before the fix
+      (C06-6) the copy was shallow: the copies shared their inner array objects, which every
+      nested write (`$b[0][0] = 9`, `$b[0][] = 9`, `unset($b[0][1])`, `$b[0]->push(9)`)
+      mutates in place. -/
+  deepClone : Bool
 deriving DecidableEq, Repr
 
-def Cfg.fixed : Cfg := ⟨true, true, true, true⟩
-def Cfg.pinned : Cfg := ⟨false, false, false, true⟩
+def Cfg.fixed : Cfg := ⟨true, true, true, true, true⟩
+def Cfg.pinned : Cfg := ⟨false, false, false, true, false⟩
 /-- the fixed tree with the copy at the binding of a call result elided -/
-def Cfg.elided : Cfg := ⟨true, true, true, false⟩
+def Cfg.elided : Cfg := ⟨true, true, true, false, true⟩
+/-- the tree with the first five C06 fixes, before C06-6: copies are shallow -/
+def Cfg.shallow : Cfg := ⟨true, true, true, true, false⟩
 
 /-! ### list-level stores -/
 
@@ -316,17 +325,43 @@ def readPlace (s : St) : Place → Option Val
        | none => some (.sc .null))
     | _ => none
 
-/-- `CloneArrayValue`: a new array object with the same cells -/
-def cloneOnStore (v : Val) (next : Nat) : Val × Nat :=
+mutual
+/-- `CloneArrayValue` (C06-6): a new array object; the cells of scalar elements are shared
+with the source, an element that is itself an array gets a new cell holding a recursive
+copy. Every array object of the result is freshly allocated. -/
+def Val.deepCopy : Val → Nat → Val × Nat
+  | .sc s, n => (.sc s, n)
+  | .arr _ kids, n =>
+    match deepCopyL kids (n + 1) with
+    | (kids', n') => (.arr n kids', n')
+def deepCopyL : List Slot → Nat → List Slot × Nat
+  | [], n => ([], n)
+  | (c, k, v) :: r, n =>
+    match v.deepCopy (n + 1) with
+    | (v', n1) =>
+      match deepCopyL r n1 with
+      | (r', n2) => ((match v with | .sc _ => c | .arr _ _ => n, k, v') :: r', n2)
+end
+
+/-- `CloneArrayValue` before C06-6: a new array object with the same cells (inner array
+objects shared with the source) -/
+def shallowCopy (v : Val) (next : Nat) : Val × Nat :=
   match v with
   | .arr _ kids => (.arr next kids, next + 1)
   | v => (v, next)
+
+/-- `CloneArrayOnStore` / `SetVariableValue` / `SetProperty`: the copy made when an array
+value is stored -/
+def cloneOnStore (cfg : Cfg) (v : Val) (next : Nat) : Val × Nat :=
+  if cfg.deepClone then v.deepCopy next else shallowCopy v next
 
 /-- `writeBackArrayProperty(ctx, place, arr)` after the array at `place` was mutated -/
 def writeBack (cfg : Cfg) (s : St) : Place → St
   | .var _ => s
   | .prop x p =>
-    -- `cv.SetProperty(p, arr)`: the property gets a copy of the array it already held
+    -- C06-6: the property already holds the array that was mutated in place: nothing to store.
+    -- Before: `cv.SetProperty(p, arr)`, the property got a (shallow) copy of the array it held
+    if cfg.deepClone then s else
     match readPlace s (.prop x p), s.varObj? x with
     | some (.arr _ kids), some h => { (s.setProp h p (.arr s.next kids)) with next := s.next + 1 }
     | _, _ => s
@@ -337,11 +372,21 @@ def writeBack (cfg : Cfg) (s : St) : Place → St
       writeBack cfg { (s.applyAct pa (writeBackAct cfg pkids k2 s.next child)) with next := s.next + 1 } b2
     | _, _ => s
 
-/-- does the key exist in the array at `b` (`indexExpressionKeyExists`)? -/
-def keyExists (s : St) (b : Place) (k : IKey) : Option Bool :=
-  match readPlace s b with
-  | some (.arr _ kids) => some (Keys.find k (keys kids)).isSome
-  | _ => none
+/-- does the key exist in the array at `b` (`indexExpressionKeyExists`)? For `b = b'[k']`
+the parent key is asked first: a missing parent key answers "no" (so that
+`$x[1][2][] = v` creates `$x[1]`, then `$x[1][2]`). -/
+def keyExists (s : St) : Place → IKey → Option Bool
+  | .idx b' k', k =>
+    match keyExists s b' k' with
+    | some true =>
+      (match readPlace s (.idx b' k') with
+       | some (.arr _ kids) => some (Keys.find k (keys kids)).isSome
+       | _ => none)
+    | r => r
+  | b, k =>
+    match readPlace s b with
+    | some (.arr _ kids) => some (Keys.find k (keys kids)).isSome
+    | _ => none
 
 /-- the array case of `IndexExpression.SetValue` at place `b` with the value already
 prepared: mutate the array object in place, then write back. -/
@@ -355,7 +400,7 @@ def storeAt (cfg : Cfg) (s : St) (b : Place) (k : Option IKey) (v : Val) : Optio
 created first (`inner.SetValue(ctx, emptyArr)`). -/
 def setIdx (cfg : Cfg) : Place → St → Option IKey → Val → Option St
   | .idx b2 k2, s, k, v =>
-    let (v, n) := if cfg.cloneOnElemStore then cloneOnStore v s.next else (v, s.next)
+    let (v, n) := if cfg.cloneOnElemStore then cloneOnStore cfg v s.next else (v, s.next)
     let s := { s with next := n }
     let s1 :=
       match keyExists s b2 k2 with
@@ -366,7 +411,7 @@ def setIdx (cfg : Cfg) : Place → St → Option IKey → Val → Option St
       | _ => s
     storeAt cfg s1 (.idx b2 k2) k v
   | b, s, k, v =>
-    let (v, n) := if cfg.cloneOnElemStore then cloneOnStore v s.next else (v, s.next)
+    let (v, n) := if cfg.cloneOnElemStore then cloneOnStore cfg v s.next else (v, s.next)
     storeAt cfg { s with next := n } b k v
 
 /-- `unset(b[k])` -/
@@ -411,7 +456,7 @@ def allocL (cfg : Cfg) (s : St) : List (Key × Lit) → Nat → Option (List Slo
   | (k, l) :: r, nx =>
     match l.alloc cfg s (nx + 1) with
     | some (v, n1) =>
-      let (v, n1) := if cfg.cloneOnElemStore then cloneOnStore v n1 else (v, n1)
+      let (v, n1) := if cfg.cloneOnElemStore then cloneOnStore cfg v n1 else (v, n1)
       (match allocL cfg s r n1 with
        | some (rest, n2) => some ((nx, k, v) :: rest, n2)
        | none => none)
@@ -504,18 +549,18 @@ def Op.isRef : Op → Bool
 def np : Nat := 2
 
 /-- `CloneExpression`: `cloned.SetProperty(key, v)` for every property -/
-def cloneProps : List Val → Nat → List Val × Nat
+def cloneProps (cfg : Cfg) : List Val → Nat → List Val × Nat
   | [], n => ([], n)
   | v :: r, n =>
-    let (v', n1) := cloneOnStore v n
-    let (r', n2) := cloneProps r n1
+    let (v', n1) := cloneOnStore cfg v n
+    let (r', n2) := cloneProps cfg r n1
     (v' :: r', n2)
 
 def stepOpt (cfg : Cfg) (s : St) : Op → Option St
   | .setVar x r =>
     match evalRV cfg s r with
     | some (v, s1) =>
-      let (v', n) := if cfg.copyCallResult || !r.isCall then cloneOnStore v s1.next else (v, s1.next)
+      let (v', n) := if cfg.copyCallResult || !r.isCall then cloneOnStore cfg v s1.next else (v, s1.next)
       some { (s1.setVar x v') with next := n }
     | none => none
   | .setProp x p r =>
@@ -525,7 +570,7 @@ def stepOpt (cfg : Cfg) (s : St) : Op → Option St
        | some h =>
          (match s1.propVal? h p with
           | some _ =>
-            let (v', n) := cloneOnStore v s1.next
+            let (v', n) := cloneOnStore cfg v s1.next
             some { (s1.setProp h p v') with next := n }
           | none => none)          -- undeclared property: outside the model
        | none => none)
@@ -543,7 +588,7 @@ def stepOpt (cfg : Cfg) (s : St) : Op → Option St
     | some h =>
       (match s.objs[h]? with
        | some ps =>
-         let (ps', n) := cloneProps ps s.next
+         let (ps', n) := cloneProps cfg ps s.next
          some { ({ s with objs := s.objs ++ [ps'] }.setVar x (.sc (.inst s.objs.length))) with next := n }
        | none => none)
     | none => none
